@@ -1,6 +1,7 @@
 import SFV.Driver.Json
 import SFV.Driver.Sim
 import SFV.Model.Measure
+import SFV.Model.MeasureSample
 /-! Driver for the measurement model (C06).  Ops `meas.*`; rationals travel as `[num, den]`. -/
 namespace SFV.Drv.Measure
 open Lean SFV SFV.Drv SFV.Drv.Sim SFV.Meas SFV.Gauss
@@ -161,7 +162,16 @@ def gaussPost (j : Json) : R Json := do
   let idx := List.range st.n
   let mat (f : Nat → Nat → Cx Rat) := jarr (idx.map fun i => jarr (idx.map fun l => jCx (f i l)))
   pure <| Json.mkObj ([("N", mat st'.N), ("M", mat st'.M), ("mean", jarr (idx.map fun i => jCx (st'.mean i))),
-    ("rngMean", jvec k rmean), ("rngCov", jmat k k S)] ++ reported j vm)
+    ("rngMean", jvec k rmean), ("rngCov", jmat k k S), ("vmAll", jvec k vm)] ++ reported j vm)
+
+/-- what `measure_dyne(covmat, modes)` hands to the generator (any number of modes) -/
+def gaussRng (j : Json) : R Json := do
+  let st ← readGS j
+  let modes ← getNatList j "modes"
+  let sigma ← pickSigma j
+  let k := 2 * modes.length
+  let rng := gaussRngArgs st modes sigma
+  pure <| Json.mkObj [("rngMean", jvec k rng.mean), ("rngCov", jmat k k rng.cov)]
 
 /-- bosonic `post_select_generaldyne` on a list of components (one measured mode: explicit inverse) -/
 def bosonicPost (j : Json) : R Json := do
@@ -265,6 +275,27 @@ def collate (j : Json) : R Json := do
   pure <| Json.mkObj [("samples", jm (combineAndSort d)),
     ("dict", jarr (d.map fun e => jarr [jnat e.1, jm e.2])), ("lastRegVals", last)]
 
+/-- Fock `measure_fock`: the (unnormalised) distribution `ravel(diagonal(partial_trace(state, n, unmeasured)))` of an
+integer-valued density tensor; the real parts are returned -/
+def fockDistOp (j : Json) : R Json := do
+  let D ← getNat j "D"
+  let n ← getNat j "n"
+  let measure ← getNatList j "measure"
+  let st ← getGArr j "state"
+  let ρ := tensOfArray D (2 * n) st
+  let d := fockDist D n measure ρ
+  pure <| Json.mkObj [("dist", intList (d.map (·.re))), ("im", intList (d.map (·.im)))]
+
+/-- bosonic rejection sampler at one proposed point: `ws` all weights, `peaks = [[w, pref, e], …]`, `u` -/
+def samplerOp (j : Json) : R Json := do
+  let ws := (← getVec j "ws").toList
+  let pk ← (← getArr j "peaks").mapM asRatVec
+  let peaks : List (Peak Rat) := pk.map fun a => ⟨a.getD 0 0, a.getD 1 0, a.getD 2 0⟩
+  let u ← getRat j "u"
+  if (ubWeights ws).foldl (· + ·) 0 == 0 then throw "no upper-bound weight"
+  pure <| Json.mkObj [("ubInd", natList (ubIndices ws)), ("ubProb", jarr ((ubWeightsProb ws).map jrat)),
+    ("p", jrat (probDistVal peaks)), ("ub", jrat (probUpbnd peaks)), ("accept", Json.bool (accept u peaks))]
+
 def handler (op : String) (j : Json) : Option (R Json) :=
   match op with
   | "meas.chop" => some (chop j)
@@ -272,12 +303,15 @@ def handler (op : String) (j : Json) : Option (R Json) :=
   | "meas.reassemble" => some (reasm j)
   | "meas.reassemblevec" => some (reasmvec j)
   | "meas.gaussPost" => some (gaussPost j)
+  | "meas.gaussRng" => some (gaussRng j)
   | "meas.bosonicPost" => some (bosonicPost j)
   | "meas.bosonicPostW" => some (bosonicPostW j)
   | "meas.scal" => some (scal j)
   | "meas.weights" => some (weights j)
   | "meas.fockOutcome" => some (fockOut j)
   | "meas.collate" => some (collate j)
+  | "meas.fockDist" => some (fockDistOp j)
+  | "meas.sampler" => some (samplerOp j)
   | _ => none
 
 end SFV.Drv.Measure
